@@ -57,3 +57,76 @@ def reductions_over(fnode, tainted, allow=()):
                     if isinstance(sl, ast.Constant) and isinstance(sl.value, int):
                         out.append(node)
     return out
+
+
+NOCOPY = {"asarray", "asanyarray", "ravel", "reshape", "squeeze", "view", "atleast_1d", "transpose"}
+INPLACE_METHODS = {"sort", "fill", "resize", "put", "itemset", "partition", "clip"}
+
+
+ARRAY_PARAMS = {"wavelength", "energy", "Q", "q", "stol", "weights", "velocity", "angle"}
+
+
+def caller_array_hazards(fnode, array_params=ARRAY_PARAMS):
+    """In-place updates of, and retained references to, values that alias a parameter.
+
+    alias = a parameter, or a name bound (only) to numpy.asarray(alias) / alias.reshape(...) / a plain copy of the
+    name - operations that return the caller's own array when it already has the right type."""
+    params = {a.arg for a in fnode.args.args + fnode.args.kwonlyargs if a.arg in array_params}
+    alias = set(params)
+    body = fnode.body if isinstance(fnode.body, list) else [fnode.body]
+    rebinds = {}
+    for st in body:
+        for node in ast.walk(st):
+            if isinstance(node, ast.Assign):
+                for t in node.targets:
+                    if isinstance(t, ast.Name):
+                        rebinds.setdefault(t.id, []).append(node.value)
+    changed = True
+    while changed:
+        changed = False
+        for name, values in rebinds.items():
+            if name in alias and name not in params:
+                continue
+            ok = []
+            for v in values:
+                src = None
+                if isinstance(v, ast.Name):
+                    src = v.id
+                elif isinstance(v, ast.Call):
+                    fn = v.func
+                    nm = fn.attr if isinstance(fn, ast.Attribute) else fn.id if isinstance(fn, ast.Name) else None
+                    if nm in NOCOPY:
+                        if v.args and isinstance(v.args[0], ast.Name):
+                            src = v.args[0].id
+                        elif isinstance(fn, ast.Attribute) and isinstance(fn.value, ast.Name):
+                            src = fn.value.id
+                ok.append(src in alias and src is not None)
+            if values and all(ok) and name not in alias:
+                alias.add(name)
+                changed = True
+            if name in params and values and not all(ok):
+                # a parameter rebound to a fresh value is no longer the caller's object after that point; conservatively
+                # keep it only if every rebinding is itself an alias
+                pass
+    rebound_fresh = {n for n, vs in rebinds.items() if n in params and vs}
+    hazards = []
+    for st in body:
+        for node in ast.walk(st):
+            if isinstance(node, ast.AugAssign):
+                t = node.target
+                base = t.id if isinstance(t, ast.Name) else t.value.id if isinstance(t, ast.Subscript) and isinstance(t.value, ast.Name) else None
+                if base in alias and base not in rebound_fresh:
+                    hazards.append(("in-place update of a caller-supplied array", node))
+            elif isinstance(node, ast.Assign):
+                for t in node.targets:
+                    if isinstance(t, ast.Subscript) and isinstance(t.value, ast.Name) and t.value.id in alias and t.value.id not in rebound_fresh:
+                        hazards.append(("element assignment into a caller-supplied array", node))
+                    if isinstance(t, ast.Attribute) or (isinstance(t, ast.Subscript) and not (isinstance(t.value, ast.Name) and t.value.id in alias)):
+                        vals = node.value.elts if isinstance(node.value, (ast.Tuple, ast.List)) else [node.value]
+                        for v in vals:
+                            if isinstance(v, ast.Name) and v.id in alias and v.id not in rebound_fresh and isinstance(t, ast.Attribute):
+                                hazards.append(("a caller-supplied array is retained by reference", node))
+            elif isinstance(node, ast.Call) and isinstance(node.func, ast.Attribute) and node.func.attr in INPLACE_METHODS \
+                    and isinstance(node.func.value, ast.Name) and node.func.value.id in alias and node.func.value.id not in rebound_fresh:
+                hazards.append(("in-place method on a caller-supplied array", node))
+    return hazards
